@@ -244,7 +244,7 @@ type c20case struct {
 	MaxData      uint64
 	FailAt       int
 	Persistent   bool
-	Via          string // "deltify" or "transmit"
+	Via          string // "deltify", "transmit" or "transmit-buffered"
 }
 
 var errInjected = errors.New("injected transmit failure")
@@ -285,29 +285,53 @@ func runDeltifyFault(e *rsync.Engine, c c20case) (string, bool) {
 type scriptedEncoder struct {
 	failAt     int
 	persistent bool
+	buffered   bool // Encode only buffers; Finalize puts the messages on the wire (as mutagen's own protobuf encoder does)
 	idx        int
 	fired      bool
 	got        []*rsync.Transmission
+	pending    []*rsync.Transmission
 	finalized  int
 }
 
-func (s *scriptedEncoder) Encode(tr *rsync.Transmission) error {
+func (s *scriptedEncoder) deliver(tr *rsync.Transmission) error {
 	i := s.idx
 	s.idx++
 	if i == s.failAt || (s.persistent && i > s.failAt) {
 		s.fired = true
 		return errInjected
 	}
-	s.got = append(s.got, proto.Clone(tr).(*rsync.Transmission))
+	s.got = append(s.got, tr)
 	return nil
 }
-func (s *scriptedEncoder) Finalize() error { s.finalized++; return nil }
+
+func (s *scriptedEncoder) Encode(tr *rsync.Transmission) error {
+	c := proto.Clone(tr).(*rsync.Transmission)
+	if s.buffered {
+		s.pending = append(s.pending, c)
+		return nil
+	}
+	return s.deliver(c)
+}
+
+// Finalize flushes what a buffering encoder holds; the wire fails at message
+// failAt, the rest of the buffer is lost and the error is what Finalize returns.
+func (s *scriptedEncoder) Finalize() error {
+	s.finalized++
+	pend := s.pending
+	s.pending = nil
+	for _, tr := range pend {
+		if err := s.deliver(tr); err != nil {
+			return err
+		}
+	}
+	return nil
+}
 
 // runTransmitFault drives the real rsync.Transmit over an on-disk target file.
 func runTransmitFault(e *rsync.Engine, root string, c c20case) (string, bool) {
 	base := []byte(c.Base)
 	sig := e.BytesSignature(base, c.BlockSize)
-	enc := &scriptedEncoder{failAt: c.FailAt, persistent: c.Persistent}
+	enc := &scriptedEncoder{failAt: c.FailAt, persistent: c.Persistent, buffered: c.Via == "transmit-buffered"}
 	name := "t_" + c.Target
 	err := rsync.Transmit(root, []string{name}, []*rsync.Signature{sig}, rsync.NewEncodingReceiver(enc))
 	if !enc.fired {
@@ -354,7 +378,7 @@ func TestC20(t *testing.T) {
 		}
 	}
 	run := func(e *rsync.Engine, c c20case) (string, bool) {
-		if c.Via == "transmit" {
+		if c.Via == "transmit" || c.Via == "transmit-buffered" {
 			return runTransmitFault(e, root, c)
 		}
 		return runDeltifyFault(e, c)
@@ -371,7 +395,7 @@ func TestC20(t *testing.T) {
 		}
 		return
 	}
-	r.Rule(fmt.Sprintf("every base,target in {a,b}^<=%d x block size 1..%d x max literal {1,2,default} x fail index k (every k until the fault no longer fires) x {once, persistent} x {Engine.Deltify with failing transmitter, rsync.Transmit with failing Encoder}; non-trivial = the fault actually fired", maxLen, maxLen))
+	r.Rule(fmt.Sprintf("every base,target in {a,b}^<=%d x block size 1..%d x max literal {1,2,default} x fail index k (every k until the fault no longer fires) x {once, persistent} x {Engine.Deltify with failing transmitter, rsync.Transmit with an Encoder whose Encode fails, rsync.Transmit with a BUFFERING Encoder (Encode queues, Finalize flushes and fails at message k)}; non-trivial = the fault actually fired", maxLen, maxLen))
 	r.Assume("a failing transmit/Encode call delivers nothing to the receiver", "alphabet {a,b}, bounded lengths")
 	vr.Parallel(len(ws), func(i int) {
 		e := rsync.NewEngine()
@@ -380,13 +404,16 @@ func TestC20(t *testing.T) {
 		base := ws[i]
 		for _, target := range ws {
 			for bs := uint64(1); bs <= uint64(maxLen); bs++ {
-				for _, via := range []string{"deltify", "transmit"} {
+				for _, via := range []string{"deltify", "transmit", "transmit-buffered"} {
 					maxes := []uint64{1, 2, 0}
-					if via == "transmit" {
+					if via != "deltify" {
 						maxes = []uint64{0} // Transmit fixes the literal size itself.
 					}
 					for _, m := range maxes {
 						for _, pers := range []bool{false, true} {
+							if pers && via == "transmit-buffered" {
+								continue // a failed flush loses the rest of the buffer either way
+							}
 							for k := 0; ; k++ {
 								c := c20case{string(base), string(target), bs, m, k, pers, via}
 								what, fired := run(e, c)
